@@ -850,6 +850,24 @@ pub fn build_pool(shipped_text: String, shipped_table: Vec<Entry>, n_rendered: u
             if text.starts_with('#') && (i / 16) % 2 == 1 {
                 text.insert(0, '\u{feff}');
             }
+            // ...or in front of a DATA line: a list stripped of its header comments and re-saved
+            // by an editor that adds a mark (a loader that skips "the marked first line, the
+            // header comment" drops the first row: seeded change M232)
+            // (rank 3 only: the one image of this class that takes no other liberty a loader
+            // might refuse — a refusal must not hide what the loader does with this one)
+            if i == 3 {
+                let mut at = 0;
+                for line in text.split_inclusive('\n') {
+                    if line.trim_start().bytes().next().map(|b| b.is_ascii_digit()).unwrap_or(false) {
+                        break;
+                    }
+                    at += line.len();
+                }
+                if at < text.len() {
+                    text = text[at..].trim_start().to_string();
+                    text.insert(0, '\u{feff}');
+                }
+            }
             odd = "+zeros";
         }
         // Stray non-UTF-8 bytes in comments (a Latin-1 header, say): today's loader refuses such a
